@@ -109,6 +109,20 @@ func c17Attrs(c *c17Calls, path string, get func() ([]*core.Attribute, error)) {
 		}
 		return c17JSON(out), nil
 	})
+	// the same call once more on the same handle: a failed (or successful) first call must not change what a later
+	// call returns - equal to the intact result or an error, never a shorter list (seeded change C17-b: a cache
+	// entry left behind by a failed first call)
+	c17Call(c, "attrs-again:"+path, func() (string, error) {
+		a, err := get()
+		if err != nil {
+			return "", err
+		}
+		names := make([]string, 0, len(a))
+		for _, x := range a {
+			names = append(names, hex.EncodeToString([]byte(x.Name))+"="+hex.EncodeToString(x.Data))
+		}
+		return strings.Join(names, ","), nil
+	})
 	for i, x := range attrs {
 		x := x
 		// Attribute.ReadValue performs I/O for variable-length data (global heap)
@@ -196,6 +210,16 @@ func c17DumpFile(path string, limit int) (c *c17Calls) {
 			c17Attrs(c, p, o.Attributes)
 		case *hdf5.Dataset:
 			c17Attrs(c, p, o.Attributes)
+			c17Call(c, "attrnames:"+p, func() (string, error) {
+				names, err := o.ListAttributes()
+				if err != nil {
+					return "", err
+				}
+				for i := range names {
+					names[i] = hex.EncodeToString([]byte(names[i]))
+				}
+				return strings.Join(names, ","), nil
+			})
 			c17Call(c, "info:"+p, func() (string, error) { return o.Info() })
 			class := -1
 			var dims []uint64
